@@ -124,6 +124,51 @@ mutual
 end
 
 mutual
+  /-- structural equality of values (what `__eq__` computes on values of one type) -/
+  def Val.beq : Val → Val → Bool
+    | .unit, .unit => true
+    | .bool a, .bool b => a == b
+    | .int a, .int b => a == b
+    | .str a, .str b => a == b
+    | .bytes a, .bytes b => a == b
+    | .pair a b, .pair a' b' => Val.beq a a' && Val.beq b b'
+    | .left a, .left b => Val.beq a b
+    | .right a, .right b => Val.beq a b
+    | .none, .none => true
+    | .some a, .some b => Val.beq a b
+    | .list a, .list b => Val.beqList a b
+    | .set a, .set b => Val.beqList a b
+    | .map a, .map b => Val.beqItems a b
+    | .bigMap a, .bigMap b => Val.beqItems a b
+    | .bigMapId a, .bigMapId b => a == b
+    | _, _ => false
+  def Val.beqList : List Val → List Val → Bool
+    | [], [] => true
+    | a :: as, b :: bs => Val.beq a b && Val.beqList as bs
+    | _, _ => false
+  def Val.beqItems : List (Val × Val) → List (Val × Val) → Bool
+    | [], [] => true
+    | (k, a) :: as, (k', b) :: bs => Val.beq k k' && Val.beq a b && Val.beqItems as bs
+    | _, _ => false
+end
+
+/-- `r` is `ok x` -/
+def okPy (r : Except Err PyObj) (x : PyObj) : Bool :=
+  match r with
+  | .ok y => PyObj.beq y x
+  | .error _ => false
+
+def okVal (r : Except Err Val) (x : Val) : Bool :=
+  match r with
+  | .ok y => Val.beq y x
+  | .error _ => false
+
+def isErr {α : Type} (r : Except Err α) (e : Err) : Bool :=
+  match r with
+  | .ok _ => false
+  | .error e' => e' == e
+
+mutual
   def PyObj.hashable (c : Cfg) : PyObj → Bool
     | .unit => c.unitHashable
     | .tuple xs => hashableList c xs
